@@ -271,12 +271,18 @@ func (p *sparser) typeName() string {
 	}
 	p.p++
 	s += t.s
-	if t.s == "map" {
+	if t.s == "map" || t.s == "mapv" {
 		p.expectOp("[")
 		k := p.typeName()
 		p.expectOp("]")
 		v := p.typeName()
-		return "map[" + k + "]" + v
+		return t.s + "[" + k + "]" + v
+	}
+	if t.s == "set" {
+		p.expectOp("[")
+		k := p.typeName()
+		p.expectOp("]")
+		return "set[" + k + "]"
 	}
 	if p.isOp(".") {
 		p.p++
@@ -323,7 +329,12 @@ func (p *sparser) or() Expr {
 	l := p.and()
 	for p.isOp("||") {
 		p.p++
-		r := p.and()
+		var r Expr
+		if p.isId("forall") || p.isId("exists") {
+			r = p.expr()
+		} else {
+			r = p.and()
+		}
 		l = EBin{"||", l, r}
 	}
 	return l
